@@ -18,7 +18,7 @@ import (
 
 // C17 — Filter.Execute returns exactly the elements for which Evaluate is true.
 
-const c17Rule = "containers: slices, named slices, arrays, maps (string / int / named / interface keys) of structs, pointers, maps, interfaces; nil and empty; elements that " +
+const c17Rule = "containers: slices, named slices, interface-typed containers holding several views of one object (pointer to a struct / to its first field / to an array / to its element 0), arrays, maps (string / int / named / interface keys) of structs, pointers, maps, interfaces; nil and empty; elements that " +
 	"error; non-container inputs incl. nil, pointer to slice, scalars; nil *Filter; expression drawn for one element; oracles: element-wise agreement with a separately " +
 	"created evaluator, result type (slice of elem type for arrays, same named type otherwise), order, identity of kept elements, first error in index order, input " +
 	"snapshot unchanged, idempotence F(F(x))=F(x), partition F_E(x) + F_not(E)(x) = x; non-trivial = >= 2 elements with both kept and dropped ones, or an erroring element; " +
@@ -78,6 +78,31 @@ func c17Check(t failer, c *c17Case) (int, int, int) {
 	}
 	for _, p := range probes {
 		c17Exec(t, c, f, ev, text, p.Interface(), "probe "+p.String())
+	}
+	// several views of ONE object in one container of interface type: a pointer to a struct and a
+	// pointer to its first field, a pointer to an array of the elements and a pointer to its element 0
+	// (equal addresses, different types) - each element is evaluated for what it is
+	if cd := c.Datum; (cd.T.K.IsList() || cd.T.K == uni.KMap) && len(cd.Elems) > 0 && len(cd.Elems) <= 6 && cd.T.Elem.K == uni.KStruct {
+		var views []interface{}
+		rt := cd.Elems[0].Value().Type()
+		if rt.Size() > 0 {
+			arr := reflect.New(reflect.ArrayOf(len(cd.Elems), rt))
+			for i, e := range cd.Elems {
+				obj := reflect.New(rt)
+				obj.Elem().Set(e.Value())
+				arr.Elem().Index(i).Set(e.Value())
+				views = append(views, obj.Interface())
+				if rt.NumField() > 0 && rt.Field(0).PkgPath == "" {
+					views = append(views, obj.Elem().Field(0).Addr().Interface(), obj.Interface())
+				}
+			}
+			views = append(views, arr.Elem().Index(0).Addr().Interface(), arr.Interface(), arr.Elem().Index(0).Addr().Interface())
+			c17Exec(t, c, f, ev, text, views, fmt.Sprintf("views of the elements of %s: &elem, &elem.<field 0>, &elem ..., &array[0], &array, &array[0]", cd))
+			if len(views) > 1 {
+				c17Exec(t, c, f, ev, text, [2]interface{}{views[0], views[1]}, fmt.Sprintf("array of two views of element 0 of %s", cd))
+				c17Exec(t, c, f, ev, text, map[string]interface{}{"only": views[0]}, fmt.Sprintf("map with one view of element 0 of %s", cd))
+			}
+		}
 	}
 	c17Exec(t, c, f, ev, text, c.Datum.Interface(), c.Datum.String()+" (again, after other containers)")
 	return k, d, e
